@@ -277,7 +277,38 @@ func exhaustive(N, L int, reduced bool) {
 func cleanCase(rng *Rng, n int, typ int, xy bool, nids int, interleave int) {
 	g := &rwp.HWCGfx{ImageType: rwp.HWCGfx_ImageTypeE(typ), W: uint32(rng.Pick([]int{0, 1, 8, 64, 128, 65535, 1 << 31, 1<<32 - 1})), H: uint32(rng.Intn(300)),
 		XYoffset: xy, ImageData: rng.Bytes(n)}
-	if xy || rng.Intn(4) == 0 { // X/Y set although XYoffset is off: not transmitted
+	// image CONTENT classes (seed C05-11: trailing all-zero lines not sent): all zero, a zero tail of one or
+	// several whole lines, a zero head, a zero line in the middle, all 0xFF, one repeated byte
+	switch n % 9 {
+	case 1:
+		for i := range g.ImageData {
+			g.ImageData[i] = 0
+		}
+	case 2:
+		for i := n / 3; i < n; i++ {
+			g.ImageData[i] = 0
+		}
+	case 3:
+		for i := 0; i < n-n/4; i++ {
+			g.ImageData[i] = 0
+		}
+	case 4:
+		for i := 170; i < 340 && i < n; i++ {
+			g.ImageData[i] = 0
+		}
+	case 5:
+		for i := range g.ImageData {
+			g.ImageData[i] = 0xFF
+		}
+	case 6:
+		for i := maxInt(0, n-171); i < n; i++ {
+			g.ImageData[i] = 0
+		}
+	}
+	if xy && n%4 == 1 { // an offset of exactly (0,0) is an offset (top-left corner), not "no offset"
+		g.X, g.Y = 0, 0
+	}
+	if (xy && n%4 != 1) || (!xy && rng.Intn(4) == 0) { // X/Y set although XYoffset is off: not transmitted
 		g.X, g.Y = uint32(rng.Intn(1000)), uint32(rng.Pick([]int{0, 5, 1<<32 - 1}))
 	}
 	ids := []uint32{}
@@ -709,4 +740,11 @@ func nodeSx(n *Node) Sx {
 		l = append(l, nodeSx(k))
 	}
 	return l
+}
+
+func maxInt(a, b int) int {
+	if a > b {
+		return a
+	}
+	return b
 }
